@@ -143,10 +143,19 @@ fn is_pointerish(t: &ValueType) -> bool
 	matches!(t, VT::Pointer { .. } | VT::SlicePointer { .. } | VT::View { .. })
 }
 
+#[derive(Clone, Copy, PartialEq)]
+enum VarKind
+{
+	Constant,
+	Parameter,
+	Local,
+}
+
 struct Ctx<'a>
 {
 	reports: &'a mut Vec<Value>,
 	stats: &'a mut Stats,
+	kinds: HashMap<u32, VarKind>,
 	vars: HashMap<u32, ValueType>,
 	funcs: HashMap<u32, (Vec<ValueType>, Option<ValueType>)>,
 	structs: HashMap<String, Vec<ValueType>>,
@@ -186,6 +195,7 @@ pub fn check(
 	let mut ctx = Ctx {
 		reports,
 		stats,
+		kinds: HashMap::new(),
 		vars: HashMap::new(),
 		funcs: HashMap::new(),
 		structs: HashMap::new(),
@@ -200,6 +210,7 @@ pub fn check(
 			} =>
 			{
 				ctx.vars.insert(name.resolution_id, value_type.clone());
+				ctx.kinds.insert(name.resolution_id, VarKind::Constant);
 			}
 			Declaration::Function {
 				name,
@@ -256,6 +267,7 @@ pub fn check(
 				for p in parameters
 				{
 					ctx.vars.insert(p.name.resolution_id, p.value_type.clone());
+					ctx.kinds.insert(p.name.resolution_id, VarKind::Parameter);
 				}
 				for s in &body.statements
 				{
@@ -308,17 +320,21 @@ fn stmt(ctx: &mut Ctx, s: &Statement)
 		} =>
 		{
 			ctx.vars.insert(name.resolution_id, value_type.clone());
+			ctx.kinds.insert(name.resolution_id, VarKind::Local);
 			if let Some(v) = value
 			{
 				expr(ctx, v);
 				let vt = v.value_type();
 				ctx.same("initialisation", value_type, &vt, &name.name);
+				whole_copy(ctx, v, "initialisation");
 			}
 		}
 		Statement::Assignment { reference, value } =>
 		{
 			expr(ctx, value);
 			reference_indices(ctx, reference);
+			whole_copy(ctx, value, "assignment");
+			write_target(ctx, reference);
 			match reference_type(ctx, reference)
 			{
 				Some(target) =>
@@ -559,6 +575,7 @@ fn expr(ctx: &mut Ctx, e: &Expression)
 				expr(ctx, x);
 				let t = x.value_type();
 				ctx.same("array_element", element_type, &t, "array literal");
+				whole_copy(ctx, x, "array literal element");
 			}
 		}
 		Expression::Structural {
@@ -578,6 +595,7 @@ fn expr(ctx: &mut Ctx, e: &Expression)
 			for m in members
 			{
 				expr(ctx, &m.expression);
+				whole_copy(ctx, &m.expression, "member initialiser");
 				if let Some(d) = declared.as_ref().and_then(|d| d.get(m.offset))
 				{
 					let t = m.expression.value_type();
@@ -593,6 +611,10 @@ fn expr(ctx: &mut Ctx, e: &Expression)
 		} =>
 		{
 			reference_indices(ctx, reference);
+			if reference.take_address
+			{
+				address_of(ctx, reference);
+			}
 			match reference_type(ctx, reference)
 			{
 				Some(t) =>
@@ -717,5 +739,147 @@ fn expr(ctx: &mut Ctx, e: &Expression)
 			expr(ctx, value);
 		}
 		Expression::Builtin(_) => (),
+	}
+}
+
+/// C08: whole arrays, array views and (non-word) structures cannot be copied by assignment,
+/// initialisation, or as an element / member of a literal (function arguments are views, not copies).
+fn whole_copy(ctx: &mut Ctx, value: &Expression, context: &str)
+{
+	use penne::alpha::value_type::ValueType as VT;
+	ctx.stats.hit("whole_copy");
+	let is_stored_object = match value
+	{
+		Expression::Deref { reference, .. } => !reference.take_address,
+		Expression::Parenthesized { inner } => matches!(
+			**inner,
+			Expression::Deref { .. }
+		),
+		_ => false,
+	};
+	if !is_stored_object
+	{
+		return;
+	}
+	match value.value_type()
+	{
+		VT::Array { .. }
+		| VT::ArrayWithNamedLength { .. }
+		| VT::Slice { .. }
+		| VT::EndlessArray { .. }
+		| VT::Arraylike { .. }
+		| VT::Struct { .. } =>
+		{
+			let t = ty(&value.value_type());
+			ctx.report(
+				"whole_copy",
+				format!("{} copies a whole `{}`", context, kind_of(&t)),
+			);
+		}
+		_ => (),
+	}
+}
+
+fn kind_of(t: &str) -> &'static str
+{
+	if t.starts_with("struct")
+	{
+		"structure"
+	}
+	else if t.starts_with("[:]")
+	{
+		"array view"
+	}
+	else
+	{
+		"array"
+	}
+}
+
+/// C08: an assignment may only write to a local variable, or through a pointer;
+/// never to a constant, a by-value parameter or through a view.
+fn write_target(ctx: &mut Ctx, r: &Reference)
+{
+	ctx.stats.hit("write_target");
+	let kind = ctx.kinds.get(&r.base.resolution_id).copied();
+	let through_pointer = r
+		.steps
+		.iter()
+		.any(|s| matches!(s, ReferenceStep::Autoderef))
+		|| r.steps.iter().any(
+			|s| matches!(s, ReferenceStep::Autodeslice { offset } if *offset == 0),
+		) && ctx
+			.vars
+			.get(&r.base.resolution_id)
+			.map(|t| t.is_slice_pointer())
+			.unwrap_or(false);
+	let through_view = r.steps.iter().any(|s| matches!(s, ReferenceStep::Autoview));
+	if through_view
+	{
+		ctx.report("write_target", "assignment writes through a view".into());
+		return;
+	}
+	match kind
+	{
+		Some(VarKind::Constant) if !through_pointer =>
+		{
+			ctx.report("write_target", "assignment writes to a constant".into());
+		}
+		Some(VarKind::Parameter) if !through_pointer && !r.take_address =>
+		{
+			let is_view_slice = ctx
+				.vars
+				.get(&r.base.resolution_id)
+				.map(|t| matches!(t, penne::alpha::value_type::ValueType::Slice { .. }))
+				.unwrap_or(false);
+			ctx.report(
+				"write_target",
+				if is_view_slice
+				{
+					"assignment writes through an array view parameter".into()
+				}
+				else
+				{
+					"assignment writes to a by-value parameter".into()
+				},
+			);
+		}
+		_ => (),
+	}
+}
+
+/// C08: an address may only be taken of a local variable or of something reached through a pointer;
+/// never of a constant, a by-value parameter or something inside a view.
+fn address_of(ctx: &mut Ctx, r: &Reference)
+{
+	use penne::alpha::value_type::ValueType as VT;
+	ctx.stats.hit("address_of");
+	let kind = ctx.kinds.get(&r.base.resolution_id).copied();
+	let base_type = ctx.vars.get(&r.base.resolution_id).cloned();
+	let through_pointer = r.steps.iter().any(|s| matches!(s, ReferenceStep::Autoderef))
+		|| matches!(base_type, Some(VT::Pointer { .. }) | Some(VT::SlicePointer { .. }));
+	if r.steps.iter().any(|s| matches!(s, ReferenceStep::Autoview))
+		|| matches!(base_type, Some(VT::View { .. }))
+	{
+		ctx.report("address_of", "address taken of something inside a view".into());
+		return;
+	}
+	match kind
+	{
+		Some(VarKind::Constant) if !through_pointer =>
+		{
+			ctx.report("address_of", "address taken of a constant".into());
+		}
+		Some(VarKind::Parameter) if !through_pointer =>
+		{
+			ctx.report(
+				"address_of",
+				format!(
+					"address taken of a parameter that is not a pointer (`{}`)",
+					base_type.as_ref().map(ty).unwrap_or_default()
+				),
+			);
+		}
+		_ => (),
 	}
 }
